@@ -110,12 +110,12 @@ def axiom_audit(prop_id):
     p = run(["lake", "env", "lean", f], cwd=LEAN, timeout=1800)
     out = p.stdout + p.stderr
     res, ok = {}, p.returncode == 0
-    for m in re.finditer(r"'([^']+)' depends on axioms: \[([^\]]*)\]", out, re.S):
+    for m in re.finditer(r"^'([^\n]+?)' depends on axioms: \[([^\]]*)\]", out, re.S | re.M):
         axs = [a.strip() for a in m.group(2).replace("\n", " ").split(",") if a.strip()]
         res[m.group(1)] = axs
         if not set(axs) <= ALLOWED_AXIOMS:
             ok = False
-    for m in re.finditer(r"'([^']+)' does not depend on any axioms", out):
+    for m in re.finditer(r"^'([^\n]+?)' does not depend on any axioms", out, re.M):
         res[m.group(1)] = []
     for n in names:
         if n not in res:
@@ -230,6 +230,8 @@ def monitor_case(ops, obs, which):
     prev = o0
     rewound = False
     bufs = {}      # byte-buffer handle -> [off, cap, len]
+    fstate = {"closed": False, "before_close": None, "mode": None, "fh_open": None, "badfile": False, "last_fh": None, "kind_ok_ro": True}
+    dcount = 0
     lastput = None # (handle, op tokens, len before)
     def V(p, sig, msg, i):
         viol.append((p, sig, msg, i))
@@ -245,6 +247,68 @@ def monitor_case(ops, obs, which):
                 V("C04", "panic", f"{ops[i].strip()} -> {r}", i)
             if "al" not in o:
                 break
+        # ---- file operations (C05 / C09)
+        op = t[0]
+        if op == "close" and r == "ok":
+            fstate["closed"] = True
+            if fstate["mode"] in (None, "mut"):   # only a shared writable session leaves its state in the file
+                fstate["before_close"] = prev
+            if fstate["mode"] in ("ro", "copy_ro", "copy") and fstate["fh_open"] is not None and o.get("fh") != fstate["fh_open"]:
+                V("C09" if fstate["mode"] != "copy" else "C05", "session-changes-file",
+                  f"file hash changed during a {fstate['mode']} session: {fstate['fh_open']} -> {o.get('fh')}", i)
+            fstate["last_fh"] = o.get("fh")
+            # handles still held at close are detached by the harness: their ranges stay reserved — except in a
+            # copy-on-write session, whose allocations never reach the file
+            for ent in live.values():
+                if ent[1] > 0: dead.append(ent[:4])
+            if fstate["mode"] == "copy":
+                dead[:] = fstate.get("dead_at_open", [])
+            live.clear(); bufs.clear(); clones = 0
+            if o.get("fh") == "none":   # remove_on_drop: the file is gone, a later open starts afresh
+                fstate["before_close"] = None; dead.clear()
+        if op in ("delete_file", "random_file") and r == "ok":
+            fstate["before_close"] = None; dead.clear()
+        if op in ("mutate_file", "truncate_file", "random_file", "delete_file") and r == "ok":
+            reserved = int(cfg.get("reserved", "0"))
+            if op == "mutate_file" and o.get("fh") != fstate["last_fh"]:
+                I = int(t[1])
+                if reserved + 1 <= I < reserved + 8:
+                    fstate["badfile"] = True
+                    fstate["kind_ok_ro"] = (I == reserved + 1 and int(t[2]) in (0, 1, 2))
+                elif I < doff:
+                    pass
+            if op == "truncate_file" and int(t[1]) < doff:
+                fstate["badfile"] = True; fstate["kind_ok_ro"] = False
+            if op in ("random_file", "delete_file"):
+                fstate["badfile"] = None   # unknown validity
+            fstate["last_fh"] = o.get("fh")
+        if op == "reopen":
+            kvs = dict(x.split("=", 1) for x in t[2:] if "=" in x)
+            mode = t[1]
+            ro_mode = mode in ("ro", "copy_ro")
+            if o.get("pk") == "0" and (r.startswith("io:") or ro_mode):
+                V("C09", "open-alters-file", f"{ops[i].strip()} -> {r}: bytes that were in the file changed", i)
+            if r == "ok":
+                wrong_magic = kvs.get("magic") != cfg.get("magic")
+                wrong_fl = (not ro_mode) and kvs.get("freelist") != cfg.get("freelist")
+                if fstate["badfile"] is False and (wrong_magic or wrong_fl) and kvs.get("reserved") == cfg.get("reserved"):
+                    V("C09", "accepts-mismatch", f"{ops[i].strip()} succeeded although magic/freelist differ from the file's", i)
+                if fstate["badfile"] is True and not (ro_mode and fstate["kind_ok_ro"]):
+                    V("C09", "accepts-bad-file", f"{ops[i].strip()} succeeded on a file with a corrupted identification / too short", i)
+                b = fstate["before_close"]
+                if b is not None and fstate["badfile"] is False and int(o["al"]) <= int(o["cp"]) and int(b["al"]) <= int(b["cp"]):
+                    for k in ("al", "di", "ms", "fl", "ma"):
+                        if o.get(k) != b.get(k):
+                            V("C05", "state-differs", f"after {ops[i].strip()}: {k}={o.get(k)} but {b.get(k)} before closing", i)
+                            break
+                    if o.get("doff") != o0.get("doff") or o.get("mv") != cfg.get("magic") or o.get("fk") != cfg.get("freelist"):
+                        V("C05", "identity-differs", f"after {ops[i].strip()}: doff/mv/fk = {o.get('doff')}/{o.get('mv')}/{o.get('fk')}", i)
+                    if o.get("ro") != ("1" if ro_mode else "0"):
+                        V("C09", "ro-flag", f"{ops[i].strip()}: read_only() = {o.get('ro')}", i)
+                fstate["closed"] = False; fstate["mode"] = mode; fstate["fh_open"] = o.get("fh")
+                fstate["dead_at_open"] = list(dead)
+                fstate["ro_state"] = (o.get("al"), o.get("di"), o.get("ms"), o.get("fl"), o.get("mem")) if ro_mode else None
+            fstate["last_fh"] = o.get("fh", fstate["last_fh"])
         if "al" not in o:
             continue
         al, di, rem, cp = int(o["al"]), int(o["di"]), int(o["rem"]), int(o["cp"])
@@ -294,6 +358,8 @@ def monitor_case(ops, obs, which):
                         V("C03", "zero-size-consumes", f"zero-size request moved the cursor {pal}->{al}", i)
                 else:
                     # C01 exclusivity / bounds
+                    if not (boff <= off and off + cap <= boff + bcap + 8):
+                        V("C01", "outside-buffer", f"accessible range [{off},{off+cap}) sticks out of its buffer extent [{boff},{boff+bcap}) (+8 header bytes)", i)
                     if not (doff <= off and off + cap <= al and al <= cp):
                         V("C01", "bounds", f"handle [{off},{off+cap}) outside [{doff},{al}] cap {cp}", i)
                     for (k, (o2, c2, _, _, _)) in list(live.items()) + [(None, d + (False,)) for d in dead]:
@@ -346,6 +412,34 @@ def monitor_case(ops, obs, which):
                 ent = live.pop(h)
                 if op == "detach" and ent[1] > 0:
                     dead.append(ent[:4])
+                # ---- release rule (C13 / C20 / C10): a non-detached drop releases exactly [boff, boff+bcap)
+                boff_, bcap_ = ent[2], ent[3]
+                ms_ = int(prev.get("ms", "0"))
+                if cfg.get("flavour") and not rewound and None not in pfl and None not in fl:
+                    if op == "detach":
+                        if (al, di, o.get("fl")) != (pal, pdi, prev.get("fl")):
+                            V("C13", "detached-releases", f"{ops[i].strip()} changed the allocator state", i)
+                    elif bcap_ > 0:
+                        pad_ = (-boff_) % 8
+                        if pal == boff_ + bcap_:
+                            exp = (boff_, pdi, pfl)
+                        elif kind == "none":
+                            exp = (pal, (pdi + bcap_) % U32, pfl)
+                        elif bcap_ <= pad_ + 8 or bcap_ - pad_ - 8 < ms_:
+                            exp = (pal, (pdi + bcap_) % U32, pfl)
+                        else:
+                            seg = (boff_ + pad_, bcap_ - pad_ - 8)
+                            exp = (pal, (pdi + 8) % U32, None)
+                            if sorted(fl) != sorted(pfl + [seg]):
+                                V("C13", "release-extent", f"{ops[i].strip()} of [{boff_},+{bcap_}): list {pfl} -> {fl}, expected new segment {seg}", i)
+                                V("C20", "release-rule", f"{ops[i].strip()} of [{boff_},+{bcap_}) with min segment {ms_}: list {pfl} -> {fl}", i)
+                        if exp[2] is not None and (al, di, fl) != exp:
+                            V("C13", "release-extent", f"{ops[i].strip()} of [{boff_},+{bcap_}): (al,di,fl) {(pal,pdi,pfl)} -> {(al,di,fl)}, expected {exp}", i)
+                            V("C20", "release-rule", f"{ops[i].strip()} of [{boff_},+{bcap_}) with min segment {ms_}: (al,di,fl) {(pal,pdi,pfl)} -> {(al,di,fl)}, expected {exp}", i)
+                        elif exp[2] is None and (al, di) != exp[:2]:
+                            V("C20", "release-rule", f"{ops[i].strip()} of [{boff_},+{bcap_}): (al,di) {(pal,pdi)} -> {(al,di)}, expected {exp[:2]}", i)
+                if "dc" in o and op == "drop":
+                    pass
         elif op == "clone":
             clones += 1
         elif op == "drop_arena":
@@ -449,6 +543,24 @@ def monitor_case(ops, obs, which):
         if op == "slices" and r == "ok":
             if o.get("val") != f"{al},{al-doff},{cp},{cfg.get('reserved')}":
                 V("C15", "slice-lengths", f"slices {o.get('val')} with allocated={al} data_offset={doff} capacity={cp}", i)
+        if fstate.get("ro_state") and not fstate["closed"] and op not in ("reopen", "close") and "al" in o:
+            cur = (o.get("al"), o.get("di"), o.get("ms"), o.get("fl"), o.get("mem"))
+            if cur != fstate["ro_state"]:
+                V("C09", "ro-state-changes", f"{ops[i].strip()} changed a read-only arena", i)
+            if (is_alloc and r == "ok" and int(o.get("cap", 0)) + int(o.get("bcap", 0)) > 0) or (op in ("discard_freelist", "clear") and r == "ok"):
+                V("C09", "ro-accepts-mutator", f"{ops[i].strip()} -> {r} on a read-only arena", i)
+        if op == "close":
+            fstate["ro_state"] = None
+        # ---- C18 truncate
+        if op == "truncate" and r == "ok":
+            n_ = int(t[1])
+            if cp != max(n_, pal) or (al, di, o.get("fl"), o.get("ms"), o.get("ma")) != (pal, pdi, prev.get("fl"), prev.get("ms"), prev.get("ma")):
+                V("C18", "truncate", f"truncate {n_}: cp={cp} (expected {max(n_, pal)}), al/di/fl/ms/ma {(al, di, o.get('fl'), o.get('ms'), o.get('ma'))} vs before {(pal, pdi, prev.get('fl'), prev.get('ms'), prev.get('ma'))}", i)
+        if op == "truncate" and r.startswith("io:") and (cp, al, di, o.get("fl"), o.get("mem")) != (int(prev["cp"]), pal, pdi, prev.get("fl"), prev.get("mem")):
+            V("C18", "failed-truncate-changes", f"refused truncate changed the arena", i)
+        # ---- C13 drop counter
+        if op in ("drop", "detach", "dealloc") and "dc" in o:
+            pass
         # ---- C20 monotone (below 2^32)
         if op not in ("clear", "inc_discarded") and di < pdi and pdi + 0 < U32 - (1 << 20):
             V("C20", "decrease", f"discarded decreased {pdi} -> {di} at {ops[i].strip()}", i)
